@@ -9,7 +9,7 @@
 
   The MAIN theorems (section "the code as it is") are unconditional statements about
   `cur otmp = codeVariant.cfg otmp`, the configuration of the code under test with and without
-  O_TMPFILE: inode_complete_inv, linked_inode_complete, get_body_single_write, get_single_write,
+  O_TMPFILE (the tag set is one of the attributes of an object: `Attr.tags`, observed by GET): inode_complete_inv, linked_inode_complete, get_body_single_write, get_single_write,
   overwrite_never_missing, linearizable (refinement to the atomic register of Spec.Register),
   acked_write_published, read_after_ack_fresh. They are instances of theorems by code SHAPE
   (`…_of_shape`, hypotheses on `Cfg`), which also cover the non-Linux build (`portable`).
@@ -290,6 +290,19 @@ example :
     let s := run c (init c { inodes := [inodeOf wA], key := some 0 } [{ kind := .put, w := wB }, { kind := .get }])
               (List.replicate 12 0 ++ List.replicate 16 1)
     s.fs.inodes[1]? = some (inodeOf wB) ∧ s.resp 1 = some (.read (observe (inodeOf wB) false)) := by decide
+
+/-- tags are part of the object: an upload with a tag set against a write without one — whichever is
+    published last, the GET answers body, ETag, metadata AND tag set of that one write. -/
+example :
+    let wA : Write := { blob := ⟨1, 3⟩, attrs := [(.etag, 1)] }
+    let wM : Write := { blob := ⟨2, 5⟩, attrs := [(.umeta 0, 2), (.tags, 2), (.etag, 2)] }
+    let wP : Write := { blob := ⟨3, 4⟩, attrs := [(.checksums, 3), (.etag, 3)] }
+    let c : Cfg := cur true
+    let s := run c (init c { inodes := [inodeOf wA], key := some 0 }
+                  [{ kind := .mpu, w := wM }, { kind := .put, w := wP }, { kind := .get }])
+              (List.replicate 8 0 ++ List.replicate 9 1 ++ [0, 0, 0] ++ List.replicate 16 2)
+    s.resp 2 = some (.read (observe (written { kind := .mpu, w := wM }) false)) ∧
+    (observe (written { kind := .mpu, w := wM }) false).tags = some 2 := by decide
 
 /-- the code's publication: a GET between any two steps of the overwrite still finds the key. -/
 example :
